@@ -23,23 +23,26 @@ func (h *Hub) HandleConnectionClosed(connection api.ShipConnectionInterface, han
 
 	// only remove this connection if it is the registered one for the ski!
 	// as we can have double connections but only one can be registered
-	if existingC := h.connectionForSKI(remoteSki); existingC != nil {
-		if existingC.DataHandler() != connection.DataHandler() {
-			// another (newer) connection is registered for this ski, so the
-			// remote service is not disconnected and nothing has to be done
-			return
-		}
+	//
+	// checking and removing has to happen in one step, otherwise a newer connection
+	// registered in between would be removed instead
+	h.muxCon.Lock()
+	existingC, exists := h.connections[remoteSki]
+	isRegistered := exists && existingC.DataHandler() == connection.DataHandler()
+	if isRegistered {
+		delete(h.connections, remoteSki)
+	}
+	h.muxCon.Unlock()
 
-		if existingC.DataHandler() == connection.DataHandler() {
-			h.muxCon.Lock()
-			delete(h.connections, connection.RemoteSKI())
-			h.muxCon.Unlock()
-		}
+	if exists && !isRegistered {
+		// another (newer) connection is registered for this ski, so the
+		// remote service is not disconnected and nothing has to be done
+		return
+	}
 
-		// connection close was after a completed handshake, so we can reset the attetmpt counter
-		if handshakeCompleted {
-			h.removeConnectionAttemptCounter(connection.RemoteSKI())
-		}
+	// connection close was after a completed handshake, so we can reset the attetmpt counter
+	if isRegistered && handshakeCompleted {
+		h.removeConnectionAttemptCounter(connection.RemoteSKI())
 	}
 
 	h.hubReader.RemoteSKIDisconnected(connection.RemoteSKI())
